@@ -397,3 +397,29 @@ def lc3_release_under_list_lock(ctx, rep):
             n += 1
             rep.check(lock in must, R, key, s.where, "on_unsubscribe runs with %s held" % lock, "on_unsubscribe runs after %s was released: a concurrent shutdown release no longer waits for it (and may miss the subscriber)" % lock)
     rep.floor(R, "on_unsubscribe sites in context", n, 2)
+
+
+def su5_release_only_on_reducer_thread(ctx, rep):
+    """the shutdown release (unsubscribe-all + clear) runs only at the end of the reducer thread:
+    it is not reachable from client-callable entry points, pool jobs or subscriber threads"""
+    R = "SU5"
+    A = ctx.A
+    cl, _ = A.reducer_closure
+    clears = [s for s, m in coll_ops(ctx, "Subscriber<") if m in ("clear", "drain", "truncate", "split_off") or (m == "take" and s.ck == "std::mem::take")]
+    if not rep.floor(R, "sites emptying the subscriber list", len(clears), 1):
+        return
+    roots = []
+    for b in ctx.prog.bodies:
+        if b.is_closure():
+            continue
+        it = (b.j.get("impl_trait") or "").split("::")[-1]
+        ia = (b.j.get("impl_adt") or "").split("::")[-1]
+        if it == "Drop" and ia == "StoreImpl":
+            continue
+        if (b.j.get("vis") == "Public" and not it and b.j.get("container") not in ctx.prog.facts.traits) or it in ("Store", "Dispatcher", "Subscription", "Drop", "Iterator"):
+            roots.append(b)
+    deferred = [c for c, s_, k in ctx.deferred_closures() if c.path != cl.path]
+    other = ctx.sync_reach(roots + deferred)
+    for s in clears:
+        rep.check(s.body.path not in other, R, "release-not-callable-by-clients:%s" % short(s.body.path), s.where,
+                  "the subscriber list is emptied only by the reducer thread at its end", "the subscriber list can be emptied from a client / pool / subscriber thread (%s is reachable from a public entry point): subscribers are released while the reducer thread may still be delivering" % short(s.body.path))
